@@ -377,4 +377,126 @@ theorem tokOkL_of_treeOkL : ∀ (ts : List Tree), treeOkL ts = true → (toksOfL
     simp [toksOfL, List.all_append, tokOk_of_treeOk t h.1, tokOkL_of_treeOkL ts h.2]
 end
 
+/-! ### from tokens to content trees -/
+
+theorem parseNodes_text (f : Nat) (t : List Char) (r : List XTok) :
+    parseNodes (f + 1) (.text t :: r) =
+      (match parseNodes f r with | .ok ns r' => .ok (.text t :: ns) r' | .bad u => .bad u) := by
+  simp only [parseNodes]
+  cases parseNodes f r <;> rfl
+
+theorem parseNodes_stop (f : Nat) (n : String) (r : List XTok) : parseNodes (f + 1) (.stop n :: r) = .ok [] r := by
+  simp [parseNodes]
+
+theorem parseNodes_start (f : Nat) (n : String) (as : List (String × List Char)) (r : List XTok) :
+    parseNodes (f + 1) (.start n as :: r) =
+      (match parseNodes f r with
+       | .ok kids r' => (match parseNodes f r' with | .ok ns r'' => .ok (.elem n as kids :: ns) r'' | .bad u => .bad u)
+       | .bad u => .bad u) := by
+  simp only [parseNodes]
+  cases parseNodes f r with
+  | bad u => rfl
+  | ok k r' => simp only []; cases parseNodes f r' <;> rfl
+
+/-- fuel can only help -/
+theorem parseNodes_mono : ∀ (f : Nat) (toks : List XTok) (ns : List Node) (r : List XTok),
+    parseNodes f toks = .ok ns r → ∀ g, f ≤ g → parseNodes g toks = .ok ns r := by
+  intro f
+  induction f with
+  | zero => intro toks ns r h; simp [parseNodes] at h
+  | succ f ih =>
+    intro toks ns r h g hg
+    obtain ⟨g', rfl⟩ : ∃ g', g = g' + 1 := ⟨g - 1, by omega⟩
+    have hg' : f ≤ g' := by omega
+    cases toks with
+    | nil => simp [parseNodes] at h
+    | cons t ts =>
+      cases t with
+      | bad u => simp [parseNodes] at h
+      | stop n => simp [parseNodes] at h ⊢; exact h
+      | text tx =>
+        rw [parseNodes_text] at h ⊢
+        cases h1 : parseNodes f ts with
+        | bad u => simp [h1] at h
+        | ok ns1 r1 =>
+          rw [ih ts ns1 r1 h1 g' hg']
+          simpa [h1] using h
+      | start n as =>
+        rw [parseNodes_start] at h ⊢
+        cases h1 : parseNodes f ts with
+        | bad u => simp [h1] at h
+        | ok k1 r1 =>
+          simp only [h1] at h
+          cases h2 : parseNodes f r1 with
+          | bad u => simp [h2] at h
+          | ok n2 r2 =>
+            rw [ih ts k1 r1 h1 g' hg']
+            simp only
+            rw [ih r1 n2 r2 h2 g' hg']
+            simpa [h2] using h
+
+/-- `toks` is parsed as the content-tree prefix `nodes`, whatever follows -/
+def ParsesAs (toks : List XTok) (nodes : List Node) : Prop :=
+  ∀ (f : Nat) (tail : List XTok) (ns : List Node) (r : List XTok),
+    parseNodes f tail = .ok ns r → parseNodes (f + toks.length) (toks ++ tail) = .ok (nodes ++ ns) r
+
+theorem parsesAs_nil : ParsesAs [] [] := by
+  intro f tail ns r h; simpa using h
+
+theorem parsesAs_text (t : List Char) (toks : List XTok) (nodes : List Node) (h : ParsesAs toks nodes) :
+    ParsesAs (.text t :: toks) (.text t :: nodes) := by
+  intro f tail ns r hp
+  have := h f tail ns r hp
+  simp only [List.cons_append, List.length_cons]
+  rw [show f + (toks.length + 1) = (f + toks.length) + 1 by omega, parseNodes_text, this]
+
+/-- an element whose content parses as `content` -/
+theorem parsesAs_elem (n : String) (as : List (String × List Char)) (body : List XTok) (content : List Node)
+    (h : ParsesAs body content) :
+    ParsesAs (.start n as :: (body ++ [.stop n])) [.elem n as content] := by
+  intro f tail ns r hp
+  have hstop : parseNodes (f + 1) (.stop n :: tail) = .ok [] tail := parseNodes_stop f n tail
+  have hc := h (f + 1) (.stop n :: tail) [] tail hstop
+  simp only [List.append_nil] at hc
+  have htail := parseNodes_mono f tail ns r hp (f + 1 + body.length) (by omega)
+  simp only [List.cons_append, List.append_assoc, List.length_cons, List.length_append, List.length_nil,
+    List.nil_append]
+  rw [show f + (body.length + (0 + 1) + 1) = (f + 1 + body.length) + 1 by omega, parseNodes_start, hc]
+  simp only [htail, List.cons_append, List.nil_append]
+
+theorem parsesAs_append (t1 t2 : List XTok) (n1 n2 : List Node) (h1 : ParsesAs t1 n1) (h2 : ParsesAs t2 n2) :
+    ParsesAs (t1 ++ t2) (n1 ++ n2) := by
+  intro f tail ns r hp
+  have a := h2 f tail ns r hp
+  have b := h1 (f + t2.length) (t2 ++ tail) (n2 ++ ns) r a
+  simp only [List.append_assoc, List.length_append]
+  rw [show f + (t1.length + t2.length) = f + t2.length + t1.length by omega]
+  exact b
+
+mutual
+theorem parses_tree (d : Nat) : ∀ (t : Tree), ParsesAs (lexedOf d t) [nodeOf d t]
+  | .leaf n as txt => by
+    by_cases ht : txt = []
+    · simp only [lexedOf, nodeOf, ht, if_true, List.nil_append]
+      exact parsesAs_elem n as [] [] parsesAs_nil
+    · simp only [lexedOf, nodeOf, ht, if_false]
+      exact parsesAs_elem n as [.text (substitute txt)] [.text (substitute txt)] (parsesAs_text _ _ _ parsesAs_nil)
+  | .node n as [] => by
+    simp only [lexedOf, nodeOf]
+    exact parsesAs_elem n as [] [] parsesAs_nil
+  | .node n as (k :: ks) => by
+    have hk := parses_kids (d + 1) (k :: ks)
+    have hws : ParsesAs [.text (nlTabs d)] [.text (nlTabs d)] := parsesAs_text _ _ _ parsesAs_nil
+    have hbody := parsesAs_append _ _ _ _ hk hws
+    have := parsesAs_elem n as _ _ hbody
+    simpa [lexedOf, nodeOf, List.append_assoc] using this
+theorem parses_kids (d : Nat) : ∀ (ks : List Tree), ParsesAs (lexedKids d ks) (nodesOfKids d ks)
+  | [] => by simpa [lexedKids, nodesOfKids] using parsesAs_nil
+  | k :: ks => by
+    have h1 := parses_tree d k
+    have h2 := parses_kids d ks
+    have := parsesAs_text (nlTabs d) _ _ (parsesAs_append _ _ _ _ h1 h2)
+    simpa [lexedKids, nodesOfKids] using this
+end
+
 end TrackVerif.LT.Xml
